@@ -234,7 +234,13 @@ def run_native(u, tier, limit=None):
     return out
   if u.get('slice'):
     mod = repo_module(u['file'][:-3].replace('/', '.'))
-    fn = slice_function(u, mod)
+    try:
+      fn = slice_function(u, mod)
+    except Exception as e:
+      # the statements of the slice are no longer there (the function was restructured): nothing to execute; the
+      # deductive tier reports the unit as not found (undecided), the other contracts of the property still run
+      out['not_found'] = '%s: %s' % (type(e).__name__, str(e)[:200])
+      return out
   else:
     mod, fn = resolve(u)
   modenv = {k: v for k, v in vars(mod).items() if not k.startswith('__')}
